@@ -50,8 +50,8 @@ def verify_one(c: Contract, reg: Registry, tier="quick", strict=False, only=None
         out["error"], out["error_kind"] = run.error, run.error_kind
         return out
     # the real code of the target must actually have been executed
-    qn = c.target.replace(":", ".")
-    if not any(k == qn or k.endswith("." + c.target.split(":")[1]) for k in run.reached):
+    qn = c.target.split("#")[0].replace(":", ".")
+    if not any(k == qn or k.endswith("." + c.target.split("#")[0].split(":")[1]) for k in run.reached):
         out["error"], out["error_kind"] = f"target code {qn} was not reached", "missing"
         return out
     obls = body_obligations(run, strict=strict, only=only)
